@@ -38,6 +38,7 @@ UNREADABLE = 'label is not an identifier for the LP reader (keyword, inf/nan pre
 PRE = 'import dimod\nfrom dimod import lp\nfrom fractions import Fraction as F\n'
 VT = {'B': dimod.BINARY, 'I': dimod.INTEGER, 'R': dimod.REAL, 'S': dimod.SPIN}
 SENSES = {'le': '<=', 'ge': '>=', 'eq': '=='}
+LOADER = None
 INTMAX, REALMAX = F(2 ** 53 - 1), F(1e30)
 
 
@@ -340,6 +341,9 @@ def mutate_text(r, text):
 
 def run(ctx):
     r = ctx.rng
+    from harness.props.c12_hand import RealLoader
+    global LOADER
+    LOADER = RealLoader()
     ctx.rule = ('random LP-expressible CQMs (1-8 variables, labels over the full LP alphabet incl. 255-character labels, default and '
                 'explicit bounds, squared / zero / negative / fractional coefficients, offsets, empty objectives and left-hand sides) '
                 'plus a 15% stream of non-expressible models (SPIN, soft constraint, invalid labels); a case = one model; '
@@ -441,14 +445,14 @@ def run(ctx):
         lines.append('dump ' + wire); expect.append('ok ' + text.encode().hex()); meta.append(('lp.dump', src))
         # ---- read back with the real parser
         try:
-            back = lp.loads(text)
+            back_canon = LOADER.loads_or_raise(text)
         except Exception as e:  # noqa
             ctx.fail('property', 'lp.loads', 'written file does not load', f'{type(e).__name__}: {e}', repro=PRE + src + 'lp.loads(lp.dumps(cqm))\n',
                      detail=dict(text=text[:600]))
             continue
         # (iii) property predicate against the generation data
         info = {v: (k, lb, ub) for v, k, lb, ub in g.vars}
-        bvars, bobj, bcons = canon_real(back)
+        bvars, bobj, bcons = back_canon
         what = None
         if {v for v, *_ in bvars} != set(info) or len(bvars) != len(info):
             what = ('variables', f'variables {sorted(v for v, *_ in bvars)} != {sorted(info)}', 'assert set(back.variables) == set(cqm.variables)')
@@ -495,7 +499,7 @@ def run(ctx):
             mt, mkind = mutate_text(r, text)
             if mt is not None and mt != text:
                 try:
-                    mb = canon_real(lp.loads(mt))
+                    mb = LOADER.loads_or_raise(mt)
                 except Exception:  # noqa
                     mb = None
                 ctx.tick('near miss: ' + mkind + ('' if mb is not None else ' (refused by the real parser)'))
@@ -526,7 +530,7 @@ def run(ctx):
                         continue
                     lines.append('dump ' + cqm_wire(cqm)); expect.append('ok ' + text.encode().hex()); meta.append(('lp.dump', dsrc))
                     try:
-                        bvars, bobj, bcons = canon_real(lp.loads(text))
+                        bvars, bobj, bcons = LOADER.loads_or_raise(text)
                         okp = (bvars == [(nm, k, lb, ub) for nm, k, lb, ub in gd.vars] and
                                bobj == merged(list(gd.obj[0].items()), [], gd.obj[2]) and
                                [(c[0], c[1], c[2], c[3]) for c in bcons] == [('c0', 'le', F(3), merged([(nm, F(1)) for nm, _ in names], [], F(0)))])
@@ -565,8 +569,8 @@ def run(ctx):
                 except ValueError:
                     continue
                 try:
-                    back = lp.loads(text)
-                    same = set(back.variables) == set(cqm.variables) and list(back.constraints) == list(cqm.constraints)
+                    bvs, _, bcs = LOADER.loads_or_raise(text)
+                    same = {v for v, *_ in bvs} == set(cqm.variables) and [c[0] for c in bcs] == list(cqm.constraints)
                 except Exception:  # noqa
                     same = False
                 if not same:
@@ -640,6 +644,7 @@ def run(ctx):
             ctx.fail('correspondence', 'lp.loads (hand-style text)', 'real parser vs reference reading of the generation data',
                      f'lp.loads gives {real} ; the text denotes {e}', detail=dict(text=t[:1500]))
         lines.append('lpread ' + t.encode().hex()); expect.append(('HAND', real)); meta.append(('lp.loads (' + kd + ') vs C++ reader model', t))
+    LOADER.close()
     got = run_driver('lpdriver', lines)
     ctx.corr_lines += len(lines)
     nbad = 0
